@@ -55,6 +55,8 @@ type lpPod struct {
 	Rid     *string  `json:"rid"`
 	Bid     *string  `json:"bid"`
 	NoNeed  *string  `json:"noneed"`
+	// only read by the control-plane variant ("via"): the pod has no Ready condition
+	NotReady bool `json:"notReady,omitempty"`
 }
 
 type lpRS struct {
@@ -80,6 +82,8 @@ type lpIn struct {
 	Filter string  `json:"filter"` // none | unordered | ordered
 	RS     []lpRS  `json:"rs"`
 	Pods   []lpPod `json:"pods"`
+	// "" = the bare patcher; "daemonSet" = through the real control plane of an Advanced DaemonSet (suite_labelpatch_plane.go)
+	Via string `json:"via,omitempty"`
 }
 
 func labelpatchSp(s string) *string { return &s }
@@ -690,6 +694,15 @@ func runLabelPatch(c *Ctx) {
 	for i := 0; i < c.N; i++ {
 		in := lpGenCase(c)
 		lpPatch(c, in)
+		if i%3 == 0 {
+			// the same pods behind the real control plane of an Advanced DaemonSet; some of them not Ready
+			pl := *in
+			pl.Pods = append([]lpPod(nil), in.Pods...)
+			for k := range pl.Pods {
+				pl.Pods[k].NotReady = r.Intn(3) == 0
+			}
+			lpPlanePatch(c, &pl)
+		}
 		if i%4 == 0 {
 			f := *in
 			f.Filter = lpPick(c, "unordered", "ordered")
@@ -720,7 +733,9 @@ func replayLabelPatch(c *Ctx, op string, raw json.RawMessage) {
 		if err := json.Unmarshal(raw, in); err != nil {
 			panic(err)
 		}
-		if op == "patch" {
+		if op == "patch" && in.Via != "" {
+			lpPlanePatch(c, in)
+		} else if op == "patch" {
 			lpPatch(c, in)
 		} else {
 			lpFilter(c, in)
